@@ -6,6 +6,7 @@ import (
 	"fmt"
 	"os"
 	"path/filepath"
+	"runtime"
 	"sort"
 	"strings"
 	"testing"
@@ -42,6 +43,60 @@ type probePlan struct {
 	Hist        [][]outcome `json:"hist"`    // [round][configuration position]
 	Samples     [][]int64   `json:"samples"` // per round: offsets (ns after the round's tick), ascending; the last one is >= the round bound
 	ViaDial     []uint32    `json:"viaDial"` // per round: bit i set => sample i also goes through DialStream/NewSession
+
+	// Round 6 extensions (all optional, so older journals replay unchanged)
+	Class    string     `json:"class,omitempty"`    // generator class: general | edge | flip
+	CfgJSON  bool       `json:"cfgJSON,omitempty"`  // the group configuration is decoded from JSON text (as service.Config is) instead of being built as a struct
+	Omit     int        `json:"omit,omitempty"`     // CfgJSON only: 1 = "timeout" absent, 2 = "interval" absent, 4 = "concurrency" absent, 8 = whole "probe" object absent
+	HasBound bool       `json:"hasBound,omitempty"` // BoundNS replaces roundBound(): every round of THIS history is over BoundNS after its tick
+	BoundNS  int64      `json:"bound,omitempty"`
+	Edge     [3]string  `json:"edge,omitzero"`     // edge class: value class of timeout, interval, concurrency (omitted | zero | negative | one | huge)
+	FlipAt   int        `json:"flipAt,omitempty"`  // flip class: 1-based round of the flipper's first changed outcome
+	FlipPos  int        `json:"flipPos,omitempty"` // flip class: configuration position of the flipper
+	FlipPre  outcome    `json:"flipPre,omitzero"`  // flip class: what the flipper did before the flip
+	Other    *otherSide `json:"other,omitempty"`   // the group's other protocol side (nil = that side is left out of the configuration)
+}
+
+// otherSide is the second side of a mixed group (UDP when the plan's side is TCP and vice versa).
+// It has its own policy, members (fakes of the other protocol, in their own order) and, for the
+// probing policies, its own probe configuration and scripted history. It is judged at the same
+// instants as the plan's side, against its own configuration only.
+type otherSide struct {
+	Policy      string      `json:"policy"` // round-robin | random | availability | latency | min-max-latency
+	Order       []int       `json:"order"`
+	TimeoutNS   int64       `json:"timeout,omitempty"`
+	IntervalNS  int64       `json:"interval,omitempty"`
+	Concurrency int         `json:"concurrency,omitempty"`
+	Hist        [][]outcome `json:"hist,omitempty"` // probing policies: [round][configuration position], long enough for the whole run
+}
+
+func (o *otherSide) n() int        { return len(o.Order) }
+func (o *otherSide) probing() bool { return o.Policy != polRoundRobin && o.Policy != polRandom }
+func (o *otherSide) timeout() time.Duration {
+	if o.TimeoutNS <= 0 {
+		return docDefaultTimeout
+	}
+	return time.Duration(o.TimeoutNS)
+}
+func (o *otherSide) interval() time.Duration {
+	if o.IntervalNS <= 0 {
+		return docDefaultInterval
+	}
+	return time.Duration(o.IntervalNS)
+}
+func (o *otherSide) conc() int {
+	c := o.Concurrency
+	if c <= 0 {
+		c = docDefaultConc
+	}
+	return min(c, o.n())
+}
+
+func otherProto(proto string) string {
+	if proto == "tcp" {
+		return "udp"
+	}
+	return "tcp"
 }
 
 func (p *probePlan) n() int { return len(p.Order) }
@@ -63,6 +118,14 @@ func (p *probePlan) conc() int {
 		c = docDefaultConc
 	}
 	return min(c, p.n())
+}
+
+// bound is the time after a tick by which the round it started is certainly over.
+func (p *probePlan) bound() time.Duration {
+	if p.HasBound {
+		return time.Duration(p.BoundNS)
+	}
+	return roundBound(p.n(), p.conc(), p.timeout())
 }
 
 // roundBound is an upper bound of how long one probe round can take: every probe ends within the
@@ -96,7 +159,7 @@ func drawLat(rt *rapid.T, T time.Duration) int64 {
 	}
 }
 
-func drawProbePlan(rt *rapid.T) *probePlan {
+func drawGeneralPlan(rt *rapid.T) *probePlan {
 	p := &probePlan{}
 	p.Proto = "tcp"
 	if rapid.IntRange(0, 9).Draw(rt, "proto") == 0 {
@@ -134,8 +197,6 @@ func drawProbePlan(rt *rapid.T) *probePlan {
 	default:
 		p.IntervalNS = int64(D + 25*time.Second)
 	}
-	I := p.interval()
-
 	var R int
 	switch rapid.IntRange(0, 9).Draw(rt, "roundsKind") {
 	case 0, 1, 2:
@@ -238,16 +299,33 @@ func drawProbePlan(rt *rapid.T) *probePlan {
 		p.Hist[r] = row
 	}
 
+	drawSamples(rt, p)
+	return p
+}
+
+// drawSamples draws, for every round, the instants (offsets after the round's tick) at which the
+// selection is sampled: up to three inside the round (tick, 1ns, completion instants and the instants
+// just before them, timeout-1ns, timeout) and a closing one at or after the round bound and before the
+// next tick.
+func drawSamples(rt *rapid.T, p *probePlan) {
+	R := len(p.Hist)
+	T, I, D := p.timeout(), p.interval(), p.bound()
 	p.Samples = make([][]int64, R)
 	p.ViaDial = make([]uint32, R)
 	for r := 0; r < R; r++ {
-		cand := []int64{0, 1, int64(T / 2), int64(T) - 1, int64(T), int64(D) - 1}
+		all := []int64{0, 1, int64(T / 2), int64(T) - 1, int64(T), int64(D) - 1}
 		for _, o := range p.Hist[r] {
 			if o.Kind != kHang {
-				cand = append(cand, o.Lat)
+				all = append(all, o.Lat)
 				if o.Lat > 0 {
-					cand = append(cand, o.Lat-1)
+					all = append(all, o.Lat-1)
 				}
+			}
+		}
+		cand := all[:0]
+		for _, c := range all {
+			if c >= 0 && c <= int64(D) { // (only the edge class has instants outside: timeout > interval, bound 0)
+				cand = append(cand, c)
 			}
 		}
 		k := rapid.IntRange(0, 3).Draw(rt, "nsamples")
@@ -269,27 +347,182 @@ func drawProbePlan(rt *rapid.T) *probePlan {
 		p.Samples[r] = append(offs, last)
 		p.ViaDial[r] = rapid.Uint32Range(0, 15).Draw(rt, "viaDial")
 	}
-	return p
 }
 
 type probeStats struct {
-	samples, during, after int64
+	samples, during, after  int64
 	ties, tieWinnerNotFirst int
 	bigTie                  int // rounds (groups > 12) whose best figure is shared by non-adjacent members while some member is worse
 	bigTieWinnerNotFirst    int
-	switches               int
-	retSensitive           bool
-	winners                string
-	firstSeen              int
-	hang, fail             bool
+	switches                int
+	retSensitive            bool
+	winners                 string
+	firstSeen               int
+	hang, fail              bool
+	maxRunning              int // most probes seen in flight at one sampled instant
+
+	// the other side of a mixed group
+	otherSelections   int64 // selections made on the other side
+	otherDuring       int64 // ... while one of ITS probes was in flight (probing policies)
+	otherAfterRounds  int64 // ... after at least one of its rounds had completed
+	otherSwitches     int   // changes of the other side's reference choice
+	otherAccounted    int64 // closing samples at which the other side's probe accounting could be judged
+	sidesDiffer       bool  // at some instant the two sides served clients of different names
+	otherFullCycle    bool  // round-robin: at least one full cycle was handed out
+	otherWinnerNot0   bool  // probing: the other side's reference choice was not its first member at some point
+	omittedRegistered bool  // a side left out of the configuration nevertheless got a group under the group's name
+}
+
+// sideRT is one protocol side of the group at run time: its fakes (all of them members; decoys are
+// kept apart) and the group client registered for it.
+type sideRT struct {
+	proto    string
+	n        int
+	order    []int // configuration position -> fake id
+	posOf    []int // fake id -> configuration position
+	names    []string
+	tcp      []*fakeTCP
+	udp      []*fakeUDP
+	counters []*probeCounters
+	tcpGroup netio.StreamClient
+	udpGroup zerocopy.UDPClient
+}
+
+func newSideRT(proto string, order []int, hist [][]outcome, tcpMap map[string]netio.StreamClient, udpMap map[string]zerocopy.UDPClient) *sideRT {
+	n := len(order)
+	s := &sideRT{proto: proto, n: n, order: order, posOf: make([]int, n), names: make([]string, n),
+		tcp: make([]*fakeTCP, n), udp: make([]*fakeUDP, n), counters: make([]*probeCounters, n)}
+	for pos, id := range order {
+		s.posOf[id] = pos
+		s.names[pos] = fmt.Sprintf("c%d", id)
+	}
+	for id := 0; id < n; id++ {
+		script := make([]outcome, len(hist))
+		for r := range script {
+			script[r] = hist[r][s.posOf[id]]
+		}
+		if proto == "tcp" {
+			f := &fakeTCP{id: id, name: fmt.Sprintf("c%d", id), script: script}
+			s.tcp[id], s.counters[id] = f, &f.probeCounters
+			tcpMap[f.name] = f
+		} else {
+			f := &fakeUDP{id: id, name: fmt.Sprintf("c%d", id), script: script, headroom: zerocopy.Headroom{Front: id, Rear: n - id}}
+			s.udp[id], s.counters[id] = f, &f.probeCounters
+			udpMap[f.name] = f
+		}
+	}
+	return s
+}
+
+// one asks the group once (a single selection) and returns the fake id reached, or -1 and why the
+// answer is not a member of this side.
+func (s *sideRT) one(viaDial bool) (id int, why string) {
+	if s.proto == "tcp" {
+		if viaDial {
+			_, err := s.tcpGroup.DialStream(userCtx(), probeUserAddr, nil)
+			ue, ok := err.(*userDialErr)
+			if !ok || ue.id < 0 || ue.id >= s.n {
+				return -1, fmt.Sprintf("DialStream went to %v, not a member", err)
+			}
+			return ue.id, ""
+		}
+		d, info := s.tcpGroup.NewStreamDialer()
+		f, ok := d.(*fakeTCP)
+		if !ok || f.id < 0 || f.id >= s.n || s.tcp[f.id] != f {
+			return -1, fmt.Sprintf("NewStreamDialer returned %T %v (info %q), not a member", d, d, info.Name)
+		}
+		if info.Name != f.name {
+			return -1, fmt.Sprintf("NewStreamDialer returned dialer %q with info name %q", f.name, info.Name)
+		}
+		return f.id, ""
+	}
+	info, sess, err := s.udpGroup.NewSession(userCtx())
+	if err != nil {
+		return -1, fmt.Sprintf("NewSession failed: %v", err)
+	}
+	id = sess.MaxPacketSize - 1000
+	if id < 0 || id >= s.n || info.Name != s.udp[id].name {
+		return -1, fmt.Sprintf("NewSession returned session of %q (mps %d), not a member", info.Name, sess.MaxPacketSize)
+	}
+	return id, ""
+}
+
+// stable asks a group whose selection only changes after probe rounds: NewStreamDialer, and with
+// viaDial also DialStream at the same instant, which must reach the same client.
+func (s *sideRT) stable(viaDial bool) (pos int, sig, why string) {
+	id, why := s.one(false)
+	if id < 0 {
+		return 0, "outside-group", why
+	}
+	if viaDial && s.proto == "tcp" {
+		id2, why := s.one(true)
+		if id2 < 0 {
+			return 0, "outside-group", why
+		}
+		if id2 != id {
+			return 0, "inconsistent-selection", fmt.Sprintf("NewStreamDialer gave c%d but DialStream at the same instant went to c%d", id, id2)
+		}
+	}
+	return s.posOf[id], "", ""
+}
+
+// state reads the probe counters of the side's fakes.
+func (s *sideRT) state() (minFinished int64, inflight bool, started []int64, running int) {
+	minFinished = 1 << 62
+	started = make([]int64, s.n)
+	for id, c := range s.counters {
+		st, f := c.started.Load(), c.finished.Load()
+		started[id] = st
+		if f < minFinished {
+			minFinished = f
+		}
+		if st > f {
+			inflight = true
+			running++
+		}
+	}
+	return
+}
+
+// caseBound is the real-time bound on one whole case (fake-time run included). A case takes
+// milliseconds; nothing in a probe group may spin or grow without bound whatever its configuration says.
+func caseBound() time.Duration {
+	return time.Duration(envInt("VERIF_C19_CASE_BOUND_S", 90)) * time.Second
+}
+
+// startWatchdog guards one case in real time from outside the bubble. A case that does not complete
+// (or piles up goroutines without end, which would take the machine down long before the bound) is a
+// violation that cannot be reported through the normal path: the watchdog panics, the driver keeps the
+// journaled plan as the replay.
+func startWatchdog(p *probePlan) (stop func()) {
+	done := make(chan struct{})
+	start := time.Now()
+	bound := caseBound()
+	go func() {
+		tk := time.NewTicker(20 * time.Millisecond)
+		defer tk.Stop()
+		for {
+			select {
+			case <-done:
+				return
+			case <-tk.C:
+				if g := runtime.NumGoroutine(); g > 20000 || time.Since(start) > bound {
+					panic(fmt.Sprintf("VERIF-VIOLATION SIG=C19/%s/no-completion case still running after %v of real time with %d goroutines alive (bound %v; a case normally takes milliseconds) %s",
+						p.Policy, time.Since(start).Round(time.Millisecond), g, bound, p.brief()))
+				}
+			}
+		}
+	}()
+	return func() { close(done) }
 }
 
 // runProbePlan executes a plan against the real client group inside a fake-time bubble and
 // returns the first violation (empty if none).
 func runProbePlan(t *testing.T, p *probePlan) (viol string, st probeStats) {
+	defer startWatchdog(p)()
 	n, R := p.n(), len(p.Hist)
 	T, I := p.timeout(), p.interval()
-	D := roundBound(n, p.conc(), T)
+	D := p.bound()
 	if I <= D {
 		return fmt.Sprintf("HARNESS: interval %v <= round bound %v", I, D), st
 	}
@@ -347,40 +580,48 @@ func runProbePlan(t *testing.T, p *probePlan) (viol string, st probeStats) {
 	}
 	st.firstSeen = -1
 
+	// the other side's own reference
+	o := p.Other
+	var (
+		choice2 []int
+		T2, I2  time.Duration
+		D2      time.Duration
+		R2      int
+	)
+	if o != nil && o.probing() {
+		R2 = len(o.Hist)
+		T2, I2 = o.timeout(), o.interval()
+		D2 = roundBound(o.n(), o.conc(), T2)
+		if I2 <= D2 {
+			return fmt.Sprintf("HARNESS: other side: interval %v <= round bound %v", I2, D2), st
+		}
+		choice2 = make([]int, R2+1)
+		for r := 1; r <= R2; r++ {
+			choice2[r], _ = refChoice(o.Policy, o.Hist, r, retention(o.Policy), int64(T2))
+			if r > 1 && choice2[r] != choice2[r-1] {
+				st.otherSwitches++
+			}
+		}
+	}
+
 	fail := func(sig, format string, a ...any) {
 		if viol == "" {
 			viol = fmt.Sprintf("SIG=C19/%s/%s ", p.Policy, sig) + fmt.Sprintf(format, a...) + " " + p.brief()
 		}
 	}
+	failOther := func(sig, format string, a ...any) {
+		if viol == "" {
+			viol = fmt.Sprintf("SIG=C19/%s/mixed-%s ", o.Policy, sig) + fmt.Sprintf("%s side of the mixed group: ", otherProto(p.Proto)) + fmt.Sprintf(format, a...) + " " + p.brief()
+		}
+	}
 
 	synctest.Test(t, func(t *testing.T) {
-		posOf := make([]int, n) // fake id -> configuration position
-		for pos, id := range p.Order {
-			posOf[id] = pos
-		}
-		names := make([]string, n)
-		for pos, id := range p.Order {
-			names[pos] = fmt.Sprintf("c%d", id)
-		}
 		tcpMap := map[string]netio.StreamClient{}
 		udpMap := map[string]zerocopy.UDPClient{}
-		tcpFakes := make([]*fakeTCP, n)
-		udpFakes := make([]*fakeUDP, n)
-		counters := make([]*probeCounters, n)
-		for id := 0; id < n; id++ {
-			script := make([]outcome, R)
-			for r := range script {
-				script[r] = p.Hist[r][posOf[id]]
-			}
-			if p.Proto == "tcp" {
-				f := &fakeTCP{id: id, name: fmt.Sprintf("c%d", id), script: script}
-				tcpFakes[id], counters[id] = f, &f.probeCounters
-				tcpMap[f.name] = f
-			} else {
-				f := &fakeUDP{id: id, name: fmt.Sprintf("c%d", id), script: script, headroom: zerocopy.Headroom{Front: id, Rear: n - id}}
-				udpFakes[id], counters[id] = f, &f.probeCounters
-				udpMap[f.name] = f
-			}
+		mainS := newSideRT(p.Proto, p.Order, p.Hist, tcpMap, udpMap)
+		var otherS *sideRT
+		if o != nil {
+			otherS = newSideRT(otherProto(p.Proto), o.Order, o.Hist, tcpMap, udpMap)
 		}
 		var decoyCounters []*probeCounters
 		for d := 0; d < p.Decoys; d++ {
@@ -390,40 +631,78 @@ func runProbePlan(t *testing.T, p *probePlan) (viol string, st probeStats) {
 			decoyCounters = append(decoyCounters, &ft.probeCounters, &fu.probeCounters)
 		}
 
-		pc := clientgroups.ConnectivityProbeConfig{
-			Timeout:     jsoncfg.Duration(p.TimeoutNS),
-			Interval:    jsoncfg.Duration(p.IntervalNS),
-			Concurrency: p.Concurrency,
-		}
-		cfg := clientgroups.ClientGroupConfig{Name: "grp"}
-		if p.Proto == "tcp" {
-			cfg.TCP.Policy = clientgroups.ClientSelectionPolicy(p.Policy)
-			cfg.TCP.Clients = names
-			cfg.TCP.Probe.ConnectivityProbeConfig = pc
+		var cfg clientgroups.ClientGroupConfig
+		if p.CfgJSON {
+			var otherNames []string
+			if otherS != nil {
+				otherNames = otherS.names
+			}
+			text := p.groupConfigJSON(mainS.names, otherNames)
+			dec := json.NewDecoder(strings.NewReader(text))
+			dec.DisallowUnknownFields()
+			if err := dec.Decode(&cfg); err != nil {
+				viol = fmt.Sprintf("HARNESS: configuration %s does not decode: %v", text, err)
+				return
+			}
 		} else {
-			cfg.UDP.Policy = clientgroups.ClientSelectionPolicy(p.Policy)
-			cfg.UDP.Clients = names
-			cfg.UDP.Probe.ConnectivityProbeConfig = pc
+			cfg.Name = "grp"
+			pc := clientgroups.ConnectivityProbeConfig{
+				Timeout:     jsoncfg.Duration(p.TimeoutNS),
+				Interval:    jsoncfg.Duration(p.IntervalNS),
+				Concurrency: p.Concurrency,
+			}
+			var pc2 clientgroups.ConnectivityProbeConfig
+			var pol2 clientgroups.ClientSelectionPolicy
+			var names2 []string
+			if o != nil {
+				pol2, names2 = clientgroups.ClientSelectionPolicy(o.Policy), otherS.names
+				if o.probing() {
+					pc2 = clientgroups.ConnectivityProbeConfig{Timeout: jsoncfg.Duration(o.TimeoutNS), Interval: jsoncfg.Duration(o.IntervalNS), Concurrency: o.Concurrency}
+				}
+			}
+			if p.Proto == "tcp" {
+				cfg.TCP.Policy, cfg.TCP.Clients, cfg.TCP.Probe.ConnectivityProbeConfig = clientgroups.ClientSelectionPolicy(p.Policy), mainS.names, pc
+				cfg.UDP.Policy, cfg.UDP.Clients, cfg.UDP.Probe.ConnectivityProbeConfig = pol2, names2, pc2
+			} else {
+				cfg.UDP.Policy, cfg.UDP.Clients, cfg.UDP.Probe.ConnectivityProbeConfig = clientgroups.ClientSelectionPolicy(p.Policy), mainS.names, pc
+				cfg.TCP.Policy, cfg.TCP.Clients, cfg.TCP.Probe.ConnectivityProbeConfig = pol2, names2, pc2
+			}
 		}
 		var services []shadowsocks.Service
 		if err := cfg.AddClientGroup(zap.NewNop(), tcpMap, udpMap, func(s shadowsocks.Service) { services = append(services, s) }); err != nil {
 			viol = "HARNESS: AddClientGroup: " + err.Error()
 			return
 		}
-		if len(services) != 1 {
-			viol = fmt.Sprintf("HARNESS: %d probe services registered, want 1", len(services))
+		wantServices := 1
+		if o != nil && o.probing() {
+			wantServices = 2
+		}
+		if len(services) != wantServices {
+			fail("probe-services", "%d probe services registered, but the configuration has %d side(s) with a probing policy", len(services), wantServices)
 			return
 		}
-		var tcpGroup netio.StreamClient
-		var udpGroup zerocopy.UDPClient
-		if p.Proto == "tcp" {
-			tcpGroup = tcpMap["grp"]
-		} else {
-			udpGroup = udpMap["grp"]
+		for _, s := range []*sideRT{mainS, otherS} {
+			if s == nil {
+				continue
+			}
+			if s.proto == "tcp" {
+				s.tcpGroup = tcpMap["grp"]
+			} else {
+				s.udpGroup = udpMap["grp"]
+			}
+			if s.tcpGroup == nil && s.udpGroup == nil {
+				viol = "HARNESS: group not added to the " + s.proto + " client map"
+				return
+			}
 		}
-		if tcpGroup == nil && udpGroup == nil {
-			viol = "HARNESS: group not added to the client map"
-			return
+		if o == nil {
+			// a side without clients is left out: no group of that protocol exists under the group's name
+			// (measured, not judged: the statement speaks about the groups that exist)
+			if p.Proto == "tcp" {
+				_, st.omittedRegistered = udpMap["grp"]
+			} else {
+				_, st.omittedRegistered = tcpMap["grp"]
+			}
 		}
 
 		ctx, cancel := context.WithCancel(context.Background())
@@ -432,9 +711,14 @@ func runProbePlan(t *testing.T, p *probePlan) (viol string, st probeStats) {
 			synctest.Wait()
 			// nothing may outlive the case: a probe that ignored its deadline is cut loose here
 			left := 0
-			for _, f := range tcpFakes {
-				if f != nil {
-					left += f.closeAll()
+			for _, s := range []*sideRT{mainS, otherS} {
+				if s == nil {
+					continue
+				}
+				for _, f := range s.tcp {
+					if f != nil {
+						left += f.closeAll()
+					}
 				}
 			}
 			synctest.Wait()
@@ -451,68 +735,129 @@ func runProbePlan(t *testing.T, p *probePlan) (viol string, st probeStats) {
 		}
 		synctest.Wait()
 
-		// selectOnce asks the group for its current client and returns the configuration position.
-		selectOnce := func(viaDial bool) (int, bool) {
-			if p.Proto == "tcp" {
-				d, info := tcpGroup.NewStreamDialer()
-				f, ok := d.(*fakeTCP)
-				if !ok || f.id >= n || tcpFakes[f.id] != f {
-					fail("outside-group", "NewStreamDialer returned %T %v (info %q), not a member", d, d, info.Name)
-					return 0, false
+		// the other side. Round-robin: the set of cycle offsets still consistent with everything seen
+		// (ticket j goes to Order[(s+j) mod n2]); the statement fixes the cyclic order, not the first member.
+		var (
+			cands2     []bool
+			ticket2    int
+			firstSeen2 = -1
+		)
+		if o != nil {
+			cands2 = make([]bool, o.n())
+			for i := range cands2 {
+				cands2[i] = true
+			}
+		}
+		judgeOther := func(r int, off int64, closing, viaDial bool) (name string, ok bool) {
+			n2 := o.n()
+			if !o.probing() {
+				id, why := otherS.one(viaDial)
+				if id < 0 {
+					failOther("outside-group", "round %d offset %v: %s", r, time.Duration(off), why)
+					return "", false
 				}
-				if info.Name != f.name {
-					fail("outside-group", "NewStreamDialer returned dialer %q with info name %q", f.name, info.Name)
-					return 0, false
-				}
-				if viaDial {
-					_, err := tcpGroup.DialStream(userCtx(), probeUserAddr, nil)
-					ue, ok := err.(*userDialErr)
-					if !ok || ue.id >= n {
-						fail("outside-group", "DialStream went to %v, not a member", err)
-						return 0, false
+				st.otherSelections++
+				if o.Policy == polRoundRobin {
+					any := false
+					for s := range cands2 {
+						if cands2[s] && o.Order[(s+ticket2)%n2] != id {
+							cands2[s] = false
+						}
+						any = any || cands2[s]
 					}
-					if ue.id != f.id {
-						fail("inconsistent-selection", "NewStreamDialer gave c%d but DialStream at the same instant went to c%d", f.id, ue.id)
-						return 0, false
+					if !any {
+						failOther("cyclic-order", "round %d offset %v: selection %d went to c%d, which does not continue the cycle of its configured order %v", r, time.Duration(off), ticket2, id, o.Order)
+						return "", false
+					}
+					ticket2++
+					st.otherFullCycle = st.otherFullCycle || ticket2 >= n2
+				}
+				if closing {
+					for id, c := range otherS.counters {
+						if c.started.Load() != 0 {
+							failOther("probed-without-probing-policy", "round %d: member c%d of a %s side was probed %d times", r, id, o.Policy, c.started.Load())
+							return "", false
+						}
 					}
 				}
-				return posOf[f.id], true
+				return otherS.names[otherS.posOf[id]], true
 			}
-			info, sess, err := udpGroup.NewSession(userCtx())
-			if err != nil {
-				fail("outside-group", "NewSession failed: %v", err)
-				return 0, false
+			m, inflight, started, running := otherS.state()
+			pos, sig, why := otherS.stable(viaDial)
+			if sig != "" {
+				failOther(sig, "round %d offset %v: %s", r, time.Duration(off), why)
+				return "", false
 			}
-			id := sess.MaxPacketSize - 1000
-			if id < 0 || id >= n || info.Name != udpFakes[id].name {
-				fail("outside-group", "NewSession returned session of %q (mps %d), not a member", info.Name, sess.MaxPacketSize)
-				return 0, false
+			if running > o.conc() {
+				failOther("concurrency-exceeded", "round %d offset %v: %d probes in flight at once, the configured concurrency (%d; not positive = default %d) allows %d", r, time.Duration(off), running, o.Concurrency, docDefaultConc, o.conc())
+				return "", false
 			}
-			return posOf[id], true
+			st.otherSelections++
+			if inflight {
+				st.otherDuring++
+			}
+			want := 0
+			switch {
+			case m == 0:
+				if firstSeen2 < 0 {
+					firstSeen2 = pos
+				}
+				want = firstSeen2
+			case int(m) <= R2:
+				want = choice2[m]
+				st.otherAfterRounds++
+				st.otherWinnerNot0 = st.otherWinnerNot0 || want != 0
+			default:
+				failOther("round-accounting", "round %d offset %v: %d probes completed per client, more than its history holds", r, time.Duration(off), m)
+				return "", false
+			}
+			if pos != want {
+				sig := "choice-after-round"
+				if inflight {
+					sig = "switch-during-round"
+				}
+				var sc []int64
+				if m > 0 {
+					sc = scores(o.Policy, o.Hist, int(m), retention(o.Policy), int64(T2))
+				}
+				failOther(sig, "main-side round %d offset %v (its own completed rounds %d, probes in flight %v): serves position %d, want %d; figures %v",
+					r, time.Duration(off), m, inflight, pos, want, sc)
+				return "", false
+			}
+			if closing {
+				// its own ticks: k2 have elapsed; if the last one is at least its round bound ago, every member has
+				// been probed exactly k2 times and nothing is in flight
+				el := time.Since(t0)
+				k2, rem := int64(el/I2), el%I2
+				if rem >= D2 {
+					st.otherAccounted++
+					for id, s := range started {
+						if s != k2 || m != k2 || inflight {
+							failOther("round-accounting", "main-side round %d offset %v (%v after start, its interval %v): client c%d started %d probes, min completed %d, in flight %v; want %d each and none in flight",
+								r, time.Duration(off), el, I2, id, s, m, inflight, k2)
+							return "", false
+						}
+					}
+				}
+			}
+			return otherS.names[pos], true
 		}
 
-		state := func() (minFinished int64, inflight bool, started []int64) {
-			minFinished = 1 << 62
-			started = make([]int64, n)
-			for id, c := range counters {
-				s, f := c.started.Load(), c.finished.Load()
-				started[id] = s
-				if f < minFinished {
-					minFinished = f
-				}
-				if s > f {
-					inflight = true
-				}
-			}
-			return
-		}
+		state := mainS.state
 
 		sample := func(r int, off int64, closing, viaDial bool) bool {
-			m, inflight, started := state()
-			pos, ok := selectOnce(viaDial)
-			if !ok {
+			m, inflight, started, running := state()
+			pos, sig, why := mainS.stable(viaDial)
+			if sig != "" {
+				fail(sig, "%s", why)
 				return false
 			}
+			if running > p.conc() {
+				// ConnectivityProbeConfig.Concurrency: "the maximum number of concurrent connectivity tests"
+				fail("concurrency-exceeded", "round %d offset %v: %d probes in flight at once, the configured concurrency (%d; not positive = default %d) allows %d", r, time.Duration(off), running, p.Concurrency, docDefaultConc, p.conc())
+				return false
+			}
+			st.maxRunning = max(st.maxRunning, running)
 			st.samples++
 			if inflight {
 				st.during++
@@ -556,6 +901,13 @@ func runProbePlan(t *testing.T, p *probePlan) (viol string, st probeStats) {
 					}
 				}
 			}
+			if o != nil {
+				name2, ok := judgeOther(r, off, closing, viaDial)
+				if !ok {
+					return false
+				}
+				st.sidesDiffer = st.sidesDiffer || name2 != mainS.names[pos]
+			}
 			return true
 		}
 
@@ -575,9 +927,16 @@ func runProbePlan(t *testing.T, p *probePlan) (viol string, st probeStats) {
 				}
 			}
 		}
-		for id, c := range counters {
+		for id, c := range mainS.counters {
 			if c.overlap.Load() != 0 || c.overrun.Load() != 0 {
 				fail("round-accounting", "client c%d: %d overlapping probes, %d probes beyond the %d ticks", id, c.overlap.Load(), c.overrun.Load(), R)
+			}
+		}
+		if o != nil && o.probing() {
+			for id, c := range otherS.counters {
+				if c.overlap.Load() != 0 || c.overrun.Load() != 0 {
+					failOther("round-accounting", "client c%d: %d overlapping probes, %d probes beyond the %d ticks its interval %v allows in this run", id, c.overlap.Load(), c.overrun.Load(), R2, I2)
+				}
 			}
 		}
 		for i, c := range decoyCounters {
@@ -593,8 +952,32 @@ var probeUserAddr = mustAddr("user.example", 443)
 
 func (p *probePlan) brief() string {
 	var b strings.Builder
-	fmt.Fprintf(&b, "[proto=%s policy=%s order=%v decoys=%d timeout=%v interval=%v conc=%d rounds=%d hist(last<=8)=", p.Proto, p.Policy, p.Order, p.Decoys,
+	fmt.Fprintf(&b, "[proto=%s policy=%s order=%v decoys=%d timeout=%v interval=%v conc=%d rounds=%d", p.Proto, p.Policy, p.Order, p.Decoys,
 		p.timeout(), p.interval(), p.Concurrency, len(p.Hist))
+	if p.CfgJSON {
+		names := make([]string, p.n())
+		for pos, id := range p.Order {
+			names[pos] = fmt.Sprintf("c%d", id)
+		}
+		var names2 []string
+		if p.Other != nil {
+			for _, id := range p.Other.Order {
+				names2 = append(names2, fmt.Sprintf("c%d", id))
+			}
+		}
+		fmt.Fprintf(&b, " config=%s", p.groupConfigJSON(names, names2))
+	}
+	if p.FlipAt > 0 {
+		fmt.Fprintf(&b, " position %d flips at round %d", p.FlipPos, p.FlipAt)
+	}
+	if o := p.Other; o != nil {
+		fmt.Fprintf(&b, " other-side(%s)={policy=%s order=%v", otherProto(p.Proto), o.Policy, o.Order)
+		if o.probing() {
+			fmt.Fprintf(&b, " timeout=%v interval=%v conc=%d rounds=%d", o.timeout(), o.interval(), o.Concurrency, len(o.Hist))
+		}
+		b.WriteString("}")
+	}
+	b.WriteString(" hist(last<=8)=")
 	lo := len(p.Hist) - 8
 	if lo < 0 {
 		lo = 0
@@ -606,19 +989,54 @@ func (p *probePlan) brief() string {
 	return b.String()
 }
 
+// requiredFlipPoints are the flip rounds next to the ring sizes that every quick run must have explored
+// (the other drawn points - 34, 66, 96, 97, 127..129 - are measured only).
+var requiredFlipPoints = []int{32, 33, 63, 64, 65}
+
+func probeRequired() []string {
+	req := []string{"policy/availability", "policy/latency", "policy/min-max-latency", "proto/udp", "tie", "tie-winner-not-first", "history>retention", "retention-sensitive", "switch", "sample-during", "sample-after", "hang", "fail",
+		"group>12", "group>12-with-tie", "group>12-with-tie/availability", "group>12-with-tie/latency", "group>12-with-tie/min-max-latency", "group>12-tie-winner-not-first"}
+	// round 6, gap 1: every value class of every numeric probe field under every probing policy
+	for _, f := range []string{"timeout", "interval", "concurrency"} {
+		for _, c := range edgeClasses {
+			for _, pol := range []string{polAvailability, polLatency, polMinMax} {
+				req = append(req, "edge/"+f+"="+c+"/"+pol)
+			}
+		}
+	}
+	req = append(req, "edge/first-fails-second-succeeds", "edge/leaves-failing-first", "edge/leaves-failing-first/availability", "edge/leaves-failing-first/latency",
+		"edge/leaves-failing-first/min-max-latency", "edge/config-decoded-from-json", "edge/probe-object-absent", "edge/timeout>interval")
+	// gap 2: mixed groups
+	req = append(req, "other-side-omitted", "mixed/tcp=probing+udp=round-robin", "mixed/tcp=probing+udp=random", "mixed/tcp=round-robin+udp=probing", "mixed/tcp=random+udp=probing",
+		"mixed/tcp=probing+udp=probing", "mixed/probing+probing/other-judged-after-its-rounds", "mixed/probing+probing/other-accounting-judged", "mixed/probing+probing/intervals-differ", "mixed/probing+probing/udp-side-all-defaults-other-not", "mixed/probing+probing/tcp-side-all-defaults-other-not", "mixed/probing+probing/other-winner-not-first",
+		"mixed/other-order-differs", "mixed/sides-serve-different-clients", "mixed/round-robin-full-cycle",
+		"mixed/main-policy/availability", "mixed/main-policy/latency", "mixed/main-policy/min-max-latency")
+	// gap 3: flips next to the ring sizes, deciding the choice afterwards
+	for _, f := range requiredFlipPoints {
+		req = append(req, fmt.Sprintf("flip@%d", f), fmt.Sprintf("flip-decisive@%d", f))
+	}
+	req = append(req, "flip-decisive/availability", "flip-decisive/latency", "flip-decisive/min-max-latency", "flip-decisive/in-rounds-33..64", "flip-decisive/in-rounds-65..128", "flip@>=96", "rounds>=128")
+	return req
+}
+
 var recProbe = ev.New("C19", "probe-policies",
 	"rapid plan executed in a testing/synctest bubble against a group built by ClientGroupConfig.AddClientGroup: policy in {availability, latency, min-max-latency}; "+
-		"1..5 (7 in 8 cases) or 13..24 (1 in 8; with a team of 2..4 pairwise non-adjacent members sharing one mostly-good history and one always-failing member) scripted fake clients (TCP netio.StreamClient answering the HTTP probe over an in-memory conn; 10% UDP fakes whose probes can only fail/hang) in a drawn configuration order plus 0..2 non-member decoys; "+
+		"class general (1 in 2): 1..5 (7 in 8 cases) or 13..24 (1 in 8; with a team of 2..4 pairwise non-adjacent members sharing one mostly-good history and one always-failing member) scripted fake clients (TCP netio.StreamClient answering the HTTP probe over an in-memory conn; 10% UDP fakes whose probes can only fail/hang) in a drawn configuration order plus 0..2 non-member decoys; "+
 		"timeout in {default 5s,250ms,1s,5s,7s}, concurrency in {default,1,2,n-1,n,n+1,100}, interval > round bound (incl. default 30s); 1..120 rounds (buckets 1-8/9-32/33-64/65-120); "+
 		"per round and client an outcome {ok after lat, fail after lat (dial error/200/502/garbage/EOF), hang (dial/silence/partial)} drawn from a 2..6 entry palette with per-client preferred outcome, change point and mirroring (us granularity latencies in [0,timeout)); "+
-		"selection sampled via NewStreamDialer/DialStream/NewSession at drawn instants inside every round (0, 1ns, completion instants +-1ns, timeout-1ns, timeout) and after it, compared with a reference policy over the retained window. "+
-		"Non-trivial: >=3 clients, >=1 round whose best figure is tied, history longer than the retention (64/32); distinct key = proto|policy|n|winner sequence").
-	Require("policy/availability", "policy/latency", "policy/min-max-latency", "proto/udp", "tie", "tie-winner-not-first", "history>retention", "retention-sensitive", "switch", "sample-during", "sample-after", "hang", "fail",
-		"group>12", "group>12-with-tie", "group>12-with-tie/availability", "group>12-with-tie/latency", "group>12-with-tie/min-max-latency", "group>12-tie-winner-not-first")
+		"class edge (3 in 10): configuration decoded from JSON text with timeout, interval, concurrency each in {omitted, 0, negative (-1, -default, -2^62 / MinInt), smallest positive (1ns; 1us timeout for latency), huge (10000h, 40000h, MaxInt/MaxInt32/33)}, 2..5 clients, 1..6 rounds, probe durations drawn to fit the effective interval, two in three with the first member always failing and the second always succeeding; a value that is not positive means the documented default (5s/30s/32); "+
+		"class flip (1 in 5): 2..4 TCP clients, one of which changes from best to worst or back at round 32,33,34,63..66,96,97,127..129, the others steady, 0..70 further rounds (at most 140); "+
+		"any class, 1 in 2: a second protocol side in the same group with its own members/order: round-robin or random (3 in 10; must follow its own cycle / membership and never be probed) or a different probing policy with its own timeout/interval (equal, 2x, 1.5x, 1/2 of the first side's)/concurrency/history (judged by its own reference at the same instants, probe accounting by its own interval); "+
+		"selection sampled via NewStreamDialer/DialStream/NewSession at drawn instants inside every round (0, 1ns, completion instants +-1ns, timeout-1ns, timeout) and after it, compared with a reference policy over the retained window; every case is bounded in real time (no-completion watchdog). "+
+		"Non-trivial: >=3 clients, >=1 round whose best figure is tied, history longer than the retention (64/32); distinct key = proto|policy|n|winner sequence|other side's policy").
+	Require(probeRequired()...)
 
 func probeLabels(p *probePlan, st probeStats) (key string, nt bool, labels []string) {
 	n, R := p.n(), len(p.Hist)
 	labels = append(labels, "policy/"+p.Policy, "proto/"+p.Proto, fmt.Sprintf("n=%d", n))
+	if p.Class != "" {
+		labels = append(labels, "class/"+p.Class)
+	}
 	if st.ties > 0 {
 		labels = append(labels, "tie")
 	}
@@ -641,6 +1059,9 @@ func probeLabels(p *probePlan, st probeStats) (key string, nt bool, labels []str
 	if long {
 		labels = append(labels, "history>retention")
 	}
+	if R >= 128 {
+		labels = append(labels, "rounds>=128")
+	}
 	if st.retSensitive {
 		labels = append(labels, "retention-sensitive")
 	}
@@ -652,6 +1073,9 @@ func probeLabels(p *probePlan, st probeStats) (key string, nt bool, labels []str
 	}
 	if p.conc() < n {
 		labels = append(labels, "concurrency<clients")
+	}
+	if p.conc() < n && st.maxRunning == p.conc() {
+		labels = append(labels, "concurrency-limit-reached")
 	}
 	if p.TimeoutNS == 0 {
 		labels = append(labels, "default-timeout")
@@ -665,8 +1089,135 @@ func probeLabels(p *probePlan, st probeStats) (key string, nt bool, labels []str
 	if st.firstSeen > 0 {
 		labels = append(labels, "initial-not-first")
 	}
+
+	// gap 1: edge configuration values
+	if p.Class == "edge" {
+		for i, f := range []string{"timeout", "interval", "concurrency"} {
+			labels = append(labels, "edge/"+f+"="+p.Edge[i], "edge/"+f+"="+p.Edge[i]+"/"+p.Policy)
+		}
+		if p.CfgJSON {
+			labels = append(labels, "edge/config-decoded-from-json")
+		}
+		if p.Omit&8 != 0 {
+			labels = append(labels, "edge/probe-object-absent")
+		}
+		if p.timeout() > p.interval() {
+			labels = append(labels, "edge/timeout>interval")
+		}
+		ffss := n >= 2 && p.Proto == "tcp"
+		for _, row := range p.Hist {
+			ffss = ffss && row[0].Kind != kOK && row[1].Kind == kOK
+		}
+		if ffss {
+			labels = append(labels, "edge/first-fails-second-succeeds")
+			if !strings.Contains(st.winners, "0") {
+				// the reference says the group is away from its first member after every round, the first included
+				labels = append(labels, "edge/leaves-failing-first", "edge/leaves-failing-first/"+p.Policy)
+			}
+		}
+	}
+
+	// gap 2: the other side
+	if o := p.Other; o == nil {
+		labels = append(labels, "other-side-omitted")
+		if st.omittedRegistered {
+			labels = append(labels, "omitted-side-registered")
+		}
+	} else {
+		cls := func(pol string) string {
+			if pol == polRoundRobin || pol == polRandom {
+				return pol
+			}
+			return "probing"
+		}
+		tcpC, udpC := cls(p.Policy), cls(o.Policy)
+		if p.Proto == "udp" {
+			tcpC, udpC = udpC, tcpC
+		}
+		labels = append(labels, "mixed", "mixed/tcp="+tcpC+"+udp="+udpC, "mixed/main-policy/"+p.Policy, "mixed/other-policy/"+o.Policy)
+		differs := len(o.Order) != len(p.Order)
+		for i := 0; !differs && i < len(o.Order); i++ {
+			differs = o.Order[i] != p.Order[i]
+		}
+		if differs {
+			labels = append(labels, "mixed/other-order-differs")
+		}
+		if st.sidesDiffer {
+			labels = append(labels, "mixed/sides-serve-different-clients")
+		}
+		if o.Policy == polRoundRobin && st.otherFullCycle && o.n() >= 2 {
+			labels = append(labels, "mixed/round-robin-full-cycle")
+		}
+		if o.probing() {
+			if st.otherAfterRounds > 0 {
+				labels = append(labels, "mixed/probing+probing/other-judged-after-its-rounds")
+			}
+			if st.otherAccounted > 0 {
+				labels = append(labels, "mixed/probing+probing/other-accounting-judged")
+			}
+			if o.interval() != p.interval() {
+				labels = append(labels, "mixed/probing+probing/intervals-differ")
+				// one side leaves all its probe settings out, the other has its own interval
+				if o.TimeoutNS == 0 && o.IntervalNS == 0 && o.Concurrency == 0 {
+					labels = append(labels, "mixed/probing+probing/"+otherProto(p.Proto)+"-side-all-defaults-other-not")
+				}
+				if p.TimeoutNS == 0 && p.IntervalNS == 0 && p.Concurrency == 0 {
+					labels = append(labels, "mixed/probing+probing/"+p.Proto+"-side-all-defaults-other-not")
+				}
+			}
+			if st.otherDuring > 0 {
+				labels = append(labels, "mixed/probing+probing/other-sampled-during-its-round")
+			}
+			if st.otherSwitches > 0 {
+				labels = append(labels, "mixed/probing+probing/other-switches")
+			}
+			if st.otherWinnerNot0 {
+				labels = append(labels, "mixed/probing+probing/other-winner-not-first")
+			}
+		}
+	}
+
+	// gap 3: flips next to the ring sizes
+	if p.FlipAt > 0 {
+		labels = append(labels, fmt.Sprintf("flip@%d", p.FlipAt))
+		if p.FlipAt >= 96 {
+			labels = append(labels, "flip@>=96")
+		}
+		// decisive: without the flip (the flipper carrying on as before) the reference choice would differ
+		// in some round from the flip on
+		cf := make([][]outcome, R)
+		for r := range cf {
+			cf[r] = append([]outcome(nil), p.Hist[r]...)
+			if r+1 >= p.FlipAt {
+				cf[r][p.FlipPos] = p.FlipPre
+			}
+		}
+		decisive, in33, in65 := false, false, false
+		for r := p.FlipAt; r <= R; r++ {
+			a, _ := refChoice(p.Policy, p.Hist, r, retention(p.Policy), int64(p.timeout()))
+			b, _ := refChoice(p.Policy, cf, r, retention(p.Policy), int64(p.timeout()))
+			if a != b {
+				decisive = true
+				in33 = in33 || (r >= 33 && r <= 64)
+				in65 = in65 || (r >= 65 && r <= 128)
+			}
+		}
+		if decisive {
+			labels = append(labels, "flip-decisive", fmt.Sprintf("flip-decisive@%d", p.FlipAt), "flip-decisive/"+p.Policy)
+		}
+		if in33 {
+			labels = append(labels, "flip-decisive/in-rounds-33..64")
+		}
+		if in65 {
+			labels = append(labels, "flip-decisive/in-rounds-65..128")
+		}
+	}
+
 	nt = n >= 3 && st.ties > 0 && long
 	key = fmt.Sprintf("%s|%s|%d|%s", p.Proto, p.Policy, n, st.winners)
+	if p.Other != nil {
+		key += "|" + p.Other.Policy
+	}
 	return
 }
 
@@ -705,10 +1256,11 @@ func TestProbePolicies(t *testing.T) {
 		recProbe.Case(key, nt, labels...)
 		recProbe.Label("sample-during", st.during)
 		recProbe.Label("sample-after", st.after)
+		recProbe.Label("mixed/other-side-selections", st.otherSelections)
 		if nt {
 			recProbe.Sample(map[string]any{"proto": p.Proto, "policy": p.Policy, "order": p.Order, "timeout": p.timeout().String(),
 				"interval": p.interval().String(), "concurrency": p.Concurrency, "rounds": len(p.Hist), "winners": st.winners,
-				"ties": st.ties, "switches": st.switches, "samples": st.samples})
+				"ties": st.ties, "switches": st.switches, "samples": st.samples, "class": p.Class, "other": p.Other != nil})
 		}
 	})
 }
